@@ -70,7 +70,7 @@ pub fn is_known(prop: &str, signature: &str) -> Option<Finding> {
 pub fn replay_regressions(
     prop: &str,
     report: &mut Report,
-    run: &dyn Fn(&[u8], &str) -> CaseResult,
+    run: &dyn Fn(&serde_json::Value) -> CaseResult,
 ) {
     for f in load().into_iter().filter(|f| f.property == prop) {
         let Some(path) = &f.replay else {
@@ -81,11 +81,14 @@ pub fn replay_regressions(
         } else {
             format!("/verif/{path}")
         };
-        let Ok(bytes) = std::fs::read(&full) else {
-            report.inconclusive.push(format!("replay file {full} missing"));
+        let Some(doc) = std::fs::read_to_string(&full)
+            .ok()
+            .and_then(|t| serde_json::from_str::<serde_json::Value>(&t).ok())
+        else {
+            report.inconclusive.push(format!("replay file {full} missing or unreadable"));
             continue;
         };
-        let cr = run(&bytes, &f.config);
+        let cr = run(&doc);
         match (f.status.as_str(), cr.violation) {
             ("known", Some(_)) => report.known.push(format!(
                 "KNOWN-FINDING: property={} {}",
